@@ -21,6 +21,10 @@ T = {
  "C16": ("Static analysis: (1) the number parser rejects, on every accumulation step, values above a constant <= 2^32-1, and every conversion to the 32-bit SeqID/UID types in internal/state has a bounded operand, so no message-set number can be truncated or wrapped onto another message; (2) every consumer of resolved sequence intervals checks both ends against the view before use (per iteration, dominating the use, or in a universal error-returning check loop); (3) no UID/SeqID value or difference is reinterpreted in a narrower or signed 32-bit type; (4) loops over a set's intervals are left only by exhaustion or return (result independent of the order in which the set was written). The set algebra itself (range normalisation, '*') is not decided.",
          "Trusts go/ssa; rule tables of view-bound check functions are derived structurally (SeqID parameter compared with len(list.msg)).",
          "dominator-based bound-check rules + conversion/type-width lint over SSA + loop-exit shape rule", "DESIGN.md 4/C16"),
+
+ "C04": ("Static analysis: the DDL templates extracted from the source give UID and mailbox-id columns INTEGER PRIMARY KEY AUTOINCREMENT (checked on the tables SQLite builds); no run-time statement assigns/recycles UIDs or writes sqlite_sequence; every UIDNEXT announcement originates (inter-procedural value-flow, call-site sensitive through the generic transaction wrappers) from db.GetMailboxUID whose statement reads the persisted counter; every UIDVALIDITY written to the database originates from UIDValidityGenerator.Generate(); the epoch generator's CAS is guarded by new > last and lastUID is only touched atomically; APPENDUID/COPYUID UIDs originate from the rows the insert returned. Monotonicity across restarts depends on the wall clock and is not decided.",
+         "Trusts go/ssa, the value-flow walk (fields of returned rows are attributed to the query that returned them), SQLite's AUTOINCREMENT semantics.",
+         "inter-procedural value-origin (T-SOURCE) analysis on SSA + schema/statement checks with SQLite", "DESIGN.md 4/C04"),
 }
 NA_REASON = {}
 checks = []
